@@ -413,7 +413,8 @@ class BuiltinsMixin:
             r.lg, r.unit, r.deg = a.lg, a.unit, a.deg
             r.nonneg = a.nonneg
             if name == 'sum' and a.dt == 'b' and r.k != 'arr':
-                r = INT(I.fresh('count', node))
+                r = INT(a.rel[1]) if isinstance(a.rel, tuple) and \
+                    a.rel[0] == 'prefix' else INT(I.fresh('count', node))
             if name == 'sum':
                 self._mark_sum(r, a, self.kwarg(pos, kw, 0, 'axis'))
             self.red_kind(r, a, name)
